@@ -19,8 +19,7 @@ Fixpoint hset (h : heap) (l : loc) (p : pose) : heap :=
   | x :: t, S n => x :: hset t n p
   end.
 
-(* Pose.scale(k): self._t_vec = self._t_vec * k  (the object at that location changes, nothing else) *)
-Definition pscale (k : R) (P : pose) : pose := Pose (pR P) (vscale k (pt P)).
+(* Pose.scale(k): self._t_vec = self._t_vec * k  (Model.pscale; the object at that location changes, nothing else) *)
 Definition scale_inplace (h : heap) (l : loc) (k : R) : option heap :=
   match hget h l with Some P => Some (hset h l (pscale k P)) | None => None end.
 
